@@ -308,6 +308,19 @@ func (b *build) worker(env []string, timeout time.Duration) (string, error) {
 	}
 }
 
+// knownClasses: the violation classes (property/oracle/key) of listed known findings, so that the
+// workers spend their minimisation budget on everything else.
+func knownClasses(prop string) string {
+	var cl []string
+	for _, kf := range loadKnown() {
+		if kf.Property == prop && kf.Status == "known" && kf.Match == "" {
+			cl = append(cl, kf.Property+"/"+kf.Oracle+"/"+kf.Key)
+		}
+	}
+	b, _ := json.Marshal(cl)
+	return string(b)
+}
+
 func loadKnown() []knownFinding {
 	var k struct {
 		Findings []knownFinding `json:"findings"`
@@ -461,7 +474,7 @@ func runCheck(prop string, pc *propCfg, tier string) int {
 		go func(i int) {
 			defer wg.Done()
 			lo := seedBase*1_000_000_000 + uint64(i*per)
-			env := []string{"VERIF_MODE=batch", "VERIF_WORLD=" + pc.World, "VERIF_PROP=" + prop, "VERIF_TIER=" + tier,
+			env := []string{"VERIF_MODE=batch", "VERIF_WORLD=" + pc.World, "VERIF_PROP=" + prop, "VERIF_TIER=" + tier, "VERIF_KNOWN_CLASSES=" + knownClasses(prop),
 				fmt.Sprintf("VERIF_SEED_LO=%d", lo), fmt.Sprintf("VERIF_SEED_HI=%d", lo+uint64(per)),
 				"VERIF_OUT=" + outDir, fmt.Sprintf("VERIF_WORKER=%d", i), fmt.Sprintf("VERIF_DEADLINE_S=%d", secs),
 				"VERIF_FLAGS=" + string(flags), "GOMAXPROCS=1"}
@@ -578,7 +591,7 @@ func runCheck(prop string, pc *propCfg, tier string) int {
 		}
 		violations += f.Count
 		if f.Replay == "" {
-			fmt.Fprintf(os.Stderr, "check: violation %s without replay file: %s\n", f.Class, f.Msg)
+			fmt.Fprintf(os.Stderr, "check: violation %s (seed %d) without replay file: %s\n", f.Class, f.Seed, f.Msg)
 			fmt.Printf("VIOLATION property=%s replay=none\n", prop)
 			exit = 1
 			continue
